@@ -703,6 +703,47 @@ func (w *World) GlobalConst(g *ssa.Global) string {
 	return name
 }
 
+// globalInitFunc: v is a load of a package-level function variable that nothing but its package initialiser assigns
+// (A12), and the initialiser stores a function (or a literal without captured variables) into it: a call through the
+// variable is a call of that function.
+func (w *World) globalInitFunc(v ssa.Value) (*ssa.Function, bool) {
+	u, ok := v.(*ssa.UnOp)
+	if !ok || u.Op != token.MUL {
+		return nil, false
+	}
+	g, ok := u.X.(*ssa.Global)
+	if !ok || g.Pkg == nil || !strings.HasPrefix(g.Pkg.Pkg.Path(), ModulePath) || !w.ImmutableGlobal(g) {
+		return nil, false
+	}
+	init := g.Pkg.Func("init")
+	if init == nil {
+		return nil, false
+	}
+	var found *ssa.Function
+	n := 0
+	for _, b := range init.Blocks {
+		for _, in := range b.Instrs {
+			st, ok := in.(*ssa.Store)
+			if !ok || st.Addr != ssa.Value(g) {
+				continue
+			}
+			n++
+			switch f := st.Val.(type) {
+			case *ssa.Function:
+				found = f
+			case *ssa.MakeClosure:
+				if len(f.Bindings) == 0 {
+					found, _ = f.Fn.(*ssa.Function)
+				}
+			}
+		}
+	}
+	if n != 1 || found == nil {
+		return nil, false
+	}
+	return found, true
+}
+
 // globalInitString: v is a load of an immutable package-level []byte variable that the package initialiser sets to
 // []byte("literal"): returns the literal.  (A12 extended to the contents: such byte slices are used as constants.)
 func (w *World) globalInitString(v ssa.Value) (string, bool) {
